@@ -36,6 +36,7 @@ type Frame struct {
 	contract *FuncContract
 	loops    *loopInfo
 	loopFrames map[*ssa.BasicBlock]*loopFrame
+	allocSeq map[*ssa.Alloc]int
 	params   []Val
 	freeVars []Val
 	isGo     bool
@@ -59,6 +60,12 @@ func (f *Frame) clone() *Frame {
 	n.active = make(map[*ssa.BasicBlock]bool, len(f.active))
 	for k, v := range f.active {
 		n.active[k] = v
+	}
+	if f.allocSeq != nil {
+		n.allocSeq = make(map[*ssa.Alloc]int, len(f.allocSeq))
+		for k, v := range f.allocSeq {
+			n.allocSeq[k] = v
+		}
 	}
 	if f.loopFrames != nil {
 		n.loopFrames = make(map[*ssa.BasicBlock]*loopFrame, len(f.loopFrames))
@@ -97,15 +104,16 @@ func (f *Frame) lookupLocal(st *State, name string) (Val, bool) {
 
 func (f *Frame) findAlloc(name string) *ssa.Alloc {
 	var best *ssa.Alloc
+	bestSeq := -1
 	for _, b := range f.fn.Blocks {
 		for _, ins := range b.Instrs {
 			if a, ok := ins.(*ssa.Alloc); ok && a.Comment == name {
-				// prefer one that has been executed on this path
-				if _, ok := f.cells[a]; ok {
-					return a
-				}
-				if _, ok := f.regs[a]; ok {
-					return a
+				// among shadowing declarations prefer the one executed most recently on this path
+				if seq, ok := f.allocSeq[a]; ok {
+					if seq > bestSeq {
+						best, bestSeq = a, seq
+					}
+					continue
 				}
 				if best == nil {
 					best = a
@@ -799,6 +807,10 @@ func (x *Exec) assumeInvariants(st *State, fr *Frame, lc *LoopContract, n int, h
 // Instructions
 
 func (x *Exec) execAlloc(st *State, fr *Frame, n *ssa.Alloc) {
+	if fr.allocSeq == nil {
+		fr.allocSeq = map[*ssa.Alloc]int{}
+	}
+	fr.allocSeq[n] = len(fr.allocSeq) + x.steps
 	et := deref(n.Type())
 	if isStruct(et) {
 		r := st.newRef(sanitize(n.Comment))
